@@ -18,6 +18,7 @@ import (
 	"fmt"
 	"hash"
 	"io"
+	"runtime"
 	"sort"
 	"strings"
 	"sync"
@@ -111,6 +112,14 @@ type vScenarioC13 struct {
 	Finish  time.Duration
 	Windows []vWindowC13
 	Others  []vOthersC13
+	// workload: Savers goroutines save one pack per virtual minute each. In the contended
+	// class there are more savers than backend connections and every SlowEvery-th upload
+	// is slow: it keeps its connection until the next release event (every ReleaseEvery),
+	// so the other savers queue for a connection inside the sema layer.
+	Conns        int
+	Savers       int
+	SlowEvery    int
+	ReleaseEvery time.Duration
 }
 
 var (
@@ -156,6 +165,13 @@ func genScenarioC13(t *rapid.T) vScenarioC13 {
 		sc.Others = append(sc.Others, o)
 	}
 	sort.Slice(sc.Others, func(i, j int) bool { return sc.Others[i].At < sc.Others[j].At })
+	sc.Conns, sc.Savers = 2, 1
+	if rapid.Bool().Draw(t, "contended") {
+		sc.Conns = rapid.IntRange(1, 2).Draw(t, "conns")
+		sc.Savers = rapid.IntRange(3, 6).Draw(t, "savers")
+		sc.SlowEvery = rapid.IntRange(1, 3).Draw(t, "slowEvery")
+		sc.ReleaseEvery = rapid.SampledFrom([]time.Duration{20 * time.Second, 45 * time.Second, 90 * time.Second, 4 * time.Minute}).Draw(t, "releaseEvery")
+	}
 	return sc
 }
 
@@ -203,6 +219,17 @@ type vHistC13 struct {
 	attempts []vAttemptC13
 	calls    []*vCallC13
 
+	// freeze bookkeeping
+	gateClosed bool          // non-lock operations are held above the sema layer
+	frozen     bool          // between Freeze and Unfreeze of the sema layer
+	thawed     chan struct{} // closed when the gate reopens
+	inflight   int           // non-lock operations between the fault layer and their return
+	inStore    int           // ... of which inside the store
+	parked     []chan struct{}
+	slowNames  map[string]bool
+	changed    chan struct{} // closed and replaced whenever the counters change
+	stopped    bool
+
 	removeFaultHit  bool
 	othersRemoved   int
 	workloadSaves   int
@@ -238,7 +265,21 @@ type vStoreC13 struct{ h *vHistC13 }
 var _ backend.Backend = &vStoreC13{}
 
 func (s *vStoreC13) Properties() backend.Properties {
-	return backend.Properties{Connections: 2, HasAtomicReplace: false}
+	return backend.Properties{Connections: uint(s.h.sc.Conns), HasAtomicReplace: false}
+}
+
+func (h *vHistC13) bump() { // h.mu held
+	close(h.changed)
+	h.changed = make(chan struct{})
+}
+
+// releaseSlow lets the n oldest slow uploads finish (they hand back their connection). h.mu held.
+func (h *vHistC13) releaseSlow(n int) {
+	for ; n > 0 && len(h.parked) > 0; n-- {
+		close(h.parked[0])
+		h.parked = h.parked[1:]
+	}
+	h.bump()
 }
 func (s *vStoreC13) Hasher() hash.Hash                                  { return nil }
 func (s *vStoreC13) Close() error                                       { return nil }
@@ -263,6 +304,49 @@ func (s *vStoreC13) Save(ctx context.Context, hd backend.Handle, rd backend.Rewi
 		return errors.New("c13: file already exists")
 	}
 	if hd.Type != backend.LockFile {
+		h.inStore++
+		h.bump()
+		defer func() {
+			h.inStore--
+			h.bump()
+		}()
+		// invariant (5): while the backend is frozen for the forced refresh of a stale lock
+		// no new non-lock request reaches the backend (requests that were already inside
+		// when Freeze was called are fine)
+		if h.frozen {
+			h.violate("invariant 5: %v arrived at the backend while it was frozen for the forced refresh of the stale lock", hd)
+		}
+		if h.slowNames[hd.Name] && !h.stopped {
+			// slow upload: keeps its connection until the next release event
+			ch := make(chan struct{})
+			h.parked = append(h.parked, ch)
+			h.classes["slow-upload-holds-connection"] = true
+			h.bump()
+			h.mu.Unlock()
+			select {
+			case <-ch:
+				h.mu.Lock()
+			case <-ctx.Done():
+				h.mu.Lock()
+				// (not while the backend is frozen: the connection this upload hands back
+				// would let a queued operation run into the sema layer's mutex, and a mutex
+				// wait stops virtual time, which the forced refresh may still need)
+				for h.gateClosed {
+					thawed := h.thawed
+					h.mu.Unlock()
+					<-thawed
+					h.mu.Lock()
+				}
+				for i, c := range h.parked {
+					if c == ch {
+						h.parked = append(h.parked[:i], h.parked[i+1:]...)
+						break
+					}
+				}
+				h.bump()
+				return ctx.Err() // an upload aborted in flight leaves nothing behind
+			}
+		}
 		// invariant (2): no repository modification once the lock context is cancelled
 		if h.lockCtx != nil && h.lockCtx.Err() != nil {
 			h.violate("invariant 2: %v was written after the lock context had been cancelled", hd)
@@ -344,6 +428,23 @@ func (s *vStoreC13) Remove(ctx context.Context, hd backend.Handle) error {
 			h.violate("invariant 3: the holder removed lock file %s and is left without any lock file while it still holds the lock", hd.Name[:8])
 		}
 	}
+	if ok && hd.Type == backend.LockFile && h.frozen && len(h.parked) > 0 && h.inflight > h.inStore {
+		// The removal of an EXISTING lock file is the last request of a forced refresh
+		// (adopting or discarding the replacement lock); nothing after it needs virtual time
+		// to pass before Unfreeze. (The retry layer's clean-up Remove after a failed Save
+		// names a file that does not exist.)
+		// Let the slow uploads finish now, so that their connections become available to
+		// the operations queued inside the sema layer while the backend is still frozen,
+		// and give those goroutines a chance to run.
+		h.classes["connection-released-during-forced-refresh"] = true
+		h.logf("slow uploads finish while the backend is frozen (%d operations queued for a connection)", h.inflight-h.inStore)
+		h.releaseSlow(len(h.parked))
+		h.mu.Unlock()
+		for i := 0; i < 1000; i++ {
+			runtime.Gosched()
+		}
+		h.mu.Lock()
+	}
 	if !ok {
 		return errNotFoundC13
 	}
@@ -399,12 +500,6 @@ func (h *vHistC13) removeByOthers(staleOnly bool) {
 type vFaultC13 struct {
 	backend.Backend
 	h *vHistC13
-
-	mu       sync.Mutex
-	frozen   bool
-	thawed   chan struct{}
-	inflight int
-	idle     chan struct{}
 }
 
 func (f *vFaultC13) Unwrap() backend.Backend { return f.Backend }
@@ -412,69 +507,85 @@ func (f *vFaultC13) IsPermanentError(err error) bool {
 	return errors.Is(err, errPermanentC13) || f.Backend.IsPermanentError(err)
 }
 
-// Freeze/Unfreeze: the connection-limiting layer below implements the freeze with a
-// sync.Mutex, and a goroutine waiting for a mutex is not durably blocked for synctest
-// (virtual time would stop). This layer therefore keeps non-lock operations waiting on
-// a channel while the backend is frozen and then lets them run into the real layer,
-// which still performs its own barrier and context check.
+// Freeze/Unfreeze. The sema layer below implements the freeze with a sync.Mutex, and a
+// goroutine waiting for a mutex is not durably blocked for synctest (virtual time would
+// stop). This layer therefore
+//   - holds NEW non-lock operations on a channel while the backend is frozen (they would
+//     wait inside the sema layer anyway) and lets them run into the real layer afterwards,
+//     which still performs its own barrier and context check;
+//   - calls the real Freeze only in a settled state: every non-lock operation that passed
+//     this layer earlier is either a slow upload occupying a connection inside the store or
+//     is queued for a connection inside the sema layer (durably, on its semaphore channel).
+//
+// While frozen, connections are handed back only at the very end of the forced refresh
+// (see vStoreC13.Remove), when nothing needs virtual time any more.
 func (f *vFaultC13) Freeze() {
-	f.mu.Lock()
-	f.frozen = true
-	f.thawed = make(chan struct{})
-	for f.inflight > 0 {
-		idle := make(chan struct{})
-		f.idle = idle
-		f.mu.Unlock()
-		<-idle
-		f.mu.Lock()
+	h := f.h
+	h.mu.Lock()
+	h.gateClosed = true
+	h.thawed = make(chan struct{})
+	for !(h.inStore == len(h.parked) && (h.inflight == h.inStore || len(h.parked) >= h.sc.Conns)) {
+		ch := h.changed
+		h.mu.Unlock()
+		<-ch
+		h.mu.Lock()
 	}
-	f.mu.Unlock()
-	f.h.mu.Lock()
-	f.h.classes["backend-frozen"] = true
-	f.h.logf("backend frozen")
-	f.h.mu.Unlock()
+	h.mu.Unlock()
+	for i := 0; i < 50; i++ {
+		runtime.Gosched() // let operations that are about to queue reach the semaphore
+	}
+	h.mu.Lock()
+	h.frozen = true
+	h.classes["backend-frozen"] = true
+	if q := h.inflight - h.inStore; q > 0 {
+		h.classes["queued-behind-busy-slots-during-forced-refresh"] = true
+		h.logf("backend frozen (%d operations queued for a connection, %d slow uploads in progress)", q, len(h.parked))
+	} else {
+		h.logf("backend frozen")
+	}
+	h.mu.Unlock()
 	backend.AsBackend[backend.FreezeBackend](f.Backend).Freeze()
 }
 
 func (f *vFaultC13) Unfreeze() {
+	h := f.h
+	h.mu.Lock()
+	h.frozen = false
+	h.logf("backend unfrozen")
+	h.mu.Unlock()
 	backend.AsBackend[backend.FreezeBackend](f.Backend).Unfreeze()
-	f.mu.Lock()
-	f.frozen = false
-	close(f.thawed)
-	f.mu.Unlock()
-	f.h.mu.Lock()
-	f.h.logf("backend unfrozen")
-	f.h.mu.Unlock()
+	h.mu.Lock()
+	h.gateClosed = false
+	close(h.thawed)
+	h.mu.Unlock()
 }
 
 func (f *vFaultC13) enterNonLock() {
-	f.mu.Lock()
+	h := f.h
+	h.mu.Lock()
 	blocked := false
-	for f.frozen {
-		ch := f.thawed
-		f.mu.Unlock()
+	for h.gateClosed {
+		ch := h.thawed
 		if !blocked {
 			blocked = true
-			f.h.mu.Lock()
-			f.h.workloadBlocked++
-			f.h.classes["workload-blocked-by-freeze"] = true
-			f.h.mu.Unlock()
+			h.workloadBlocked++
+			h.classes["workload-blocked-by-freeze"] = true
 		}
+		h.mu.Unlock()
 		<-ch
-		f.mu.Lock()
+		h.mu.Lock()
 	}
-	f.inflight++
-	f.mu.Unlock()
+	h.inflight++
+	h.bump()
+	h.mu.Unlock()
 }
 
 func (f *vFaultC13) leaveNonLock() {
-	f.mu.Lock()
-	f.inflight--
-	if f.inflight == 0 && f.idle != nil {
-		close(f.idle)
-		f.idle = nil
-	}
-	f.mu.Unlock()
+	h := f.h
+	h.mu.Lock()
+	h.inflight--
+	h.bump()
+	h.mu.Unlock()
 }
 
 // inject applies the fault timeline to one lock-file request.
@@ -709,9 +820,12 @@ func (h *vHistC13) refreshes() []vRefreshC13 {
 
 func runScenarioC13(t *testing.T, sc *vScenarioC13) *vResultC13 {
 	res := &vResultC13{}
+	if sc.Conns == 0 {
+		sc.Conns, sc.Savers = 2, 1
+	}
 	synctest.Test(t, func(t *testing.T) {
 		h := &vHistC13{start: time.Now(), sc: sc, files: map[backend.Handle][]byte{}, lockTime: map[string]time.Duration{},
-			expected: map[string]bool{}, classes: map[string]bool{}}
+			expected: map[string]bool{}, classes: map[string]bool{}, slowNames: map[string]bool{}, changed: make(chan struct{})}
 		res.h = h
 
 		// production wiring (global.wrapBackend): sema -> logger -> inner hook -> retry -> outer hook
@@ -761,27 +875,56 @@ func runScenarioC13(t *testing.T, sc *vScenarioC13) *vResultC13 {
 			h.mu.Unlock()
 		}()
 
-		// workload: one repository modification per virtual minute, issued with the lock
-		// context; it stops when the backend refuses because the context is cancelled
-		wg.Add(1)
-		go func() {
-			defer wg.Done()
-			for i := 0; ; i++ {
-				timer := time.NewTimer(workloadGapC13)
-				select {
-				case <-stop:
-					timer.Stop()
-					return
-				case <-timer.C:
+		// workload: every saver issues one repository modification per virtual minute with
+		// the lock context; it stops when the backend refuses because the context is cancelled
+		for j := 0; j < sc.Savers; j++ {
+			wg.Add(1)
+			go func(j int) {
+				defer wg.Done()
+				time.Sleep(time.Duration(j) * 7 * time.Second)
+				for i := 0; ; i++ {
+					timer := time.NewTimer(workloadGapC13)
+					select {
+					case <-stop:
+						timer.Stop()
+						return
+					case <-timer.C:
+					}
+					data := []byte(fmt.Sprintf("pack %d/%d", j, i))
+					hd := backend.Handle{Type: backend.PackFile, Name: restic.Hash(data).String()}
+					if sc.SlowEvery > 0 && (i+j)%sc.SlowEvery == 0 {
+						h.mu.Lock()
+						h.slowNames[hd.Name] = true
+						h.mu.Unlock()
+					}
+					err := repo.be.Save(lctx, hd, backend.NewByteReader(data, repo.be.Hasher()))
+					if err != nil && lctx.Err() != nil {
+						return
+					}
 				}
-				data := []byte(fmt.Sprintf("pack %d", i))
-				hd := backend.Handle{Type: backend.PackFile, Name: restic.Hash(data).String()}
-				err := repo.be.Save(lctx, hd, backend.NewByteReader(data, repo.be.Hasher()))
-				if err != nil && lctx.Err() != nil {
-					return
+			}(j)
+		}
+		// release events: the oldest slow upload finishes (never while the backend is frozen)
+		if sc.ReleaseEvery > 0 {
+			wg.Add(1)
+			go func() {
+				defer wg.Done()
+				for {
+					timer := time.NewTimer(sc.ReleaseEvery)
+					select {
+					case <-stop:
+						timer.Stop()
+						return
+					case <-timer.C:
+					}
+					h.mu.Lock()
+					if !h.gateClosed && !h.frozen {
+						h.releaseSlow(1)
+					}
+					h.mu.Unlock()
 				}
-			}
-		}()
+			}()
+		}
 
 		// other clients removing lock files
 		wg.Add(1)
@@ -812,6 +955,10 @@ func runScenarioC13(t *testing.T, sc *vScenarioC13) *vResultC13 {
 			timer.Stop()
 		}
 		unlock()
+		h.mu.Lock()
+		h.stopped = true
+		h.releaseSlow(len(h.parked))
+		h.mu.Unlock()
 		close(stop)
 		wg.Wait()
 		synctest.Wait()
@@ -1019,6 +1166,9 @@ func checkResultC13(rt *rapid.T, st *verifkit.Stats, sc *vScenarioC13, res *vRes
 	for c := range h.classes {
 		classes = append(classes, c)
 	}
+	if sc.Savers > sc.Conns {
+		classes = append(classes, "contended:more-savers-than-connections")
+	}
 	switch {
 	case h.cancelled:
 		classes = append(classes, "end:context-cancelled-by-lock-monitor")
@@ -1131,6 +1281,11 @@ func TestVerifC13KnownShapeProbes(t *testing.T) {
 		{"monitor-counts-from-refresh-completion", vScenarioC13{Finish: 65 * time.Minute,
 			Windows: []vWindowC13{{Op: "save", Mode: "hang", From: 4 * time.Minute, Dur: 10*time.Minute + 27*time.Second},
 				{Op: "save", Mode: "fail", From: 14 * time.Minute, Dur: 17 * time.Minute}}}},
+		// more savers than connections, every upload slow: lock saves fail permanently until
+		// +22 min, the forced refresh at +22.5 min succeeds while uploads queue for the single
+		// connection; the connection is handed back while the backend is still frozen
+		{"contended-forced-refresh", vScenarioC13{Finish: 40 * time.Minute, Conns: 1, Savers: 4, SlowEvery: 1, ReleaseEvery: 45 * time.Second,
+			Windows: []vWindowC13{{Op: "save", Mode: "permfail", From: 3 * time.Minute, Dur: 19 * time.Minute}}}},
 		// same outage, but permanent errors (no retry): the refresh path is never starved
 		{"permanent-failure-control", vScenarioC13{Finish: 170 * time.Minute,
 			Windows: []vWindowC13{{Op: "save", Mode: "permfail", From: 3 * time.Minute, Dur: 3 * time.Hour}}}},
@@ -1160,6 +1315,11 @@ func TestVerifC13KnownShapeProbes(t *testing.T) {
 			end = fmt.Sprintf("cancelled at +%v", h.cancelAt.Round(time.Minute))
 		}
 		st.Case(p.name, "probe:"+p.name+":"+outcome)
+		for _, c := range []string{"queued-behind-busy-slots-during-forced-refresh", "connection-released-during-forced-refresh"} {
+			if h.classes[c] {
+				st.Class("probe:" + p.name + ":" + c)
+			}
+		}
 		st.Note("probe "+p.name, outcome+", "+end)
 		fail := func(msg string) {
 			t.Fatalf("C13 violated (probe %s): %s\nscenario: %+v\ntrace:\n%s", p.name, msg, sc, strings.Join(h.trace, "\n"))
